@@ -20,7 +20,11 @@ pub enum PMut {
     /// overwrite the data byte(s) following the i-th tag TLF (body tag, time tag, list-type tag)
     Tag(u16, u8),
     /// replace the i-th TLF by one declaring `value` with `nibbles` 4-bit groups
-    LyingTlf(u16, u64, u8),
+    LyingTlf(u16, u64, u16),
+    /// insert a run of `len` equal bytes (continuation bytes 0x80, zeros, ones, ...) at a position
+    InsertRun(u16, u8, u16),
+    /// cut the input `back` bytes before the end of message i (1 = right before its end marker)
+    TruncateAtMsgEnd(u16, u8),
     /// replace the i-th TLF by one of `nibbles` (9..=12) 4-bit groups whose value is the true
     /// one plus `hi` * 2^32: a reader that drops the bits beyond 32 sees an unchanged field
     WrapTlf(u16, u16, u8),
@@ -39,7 +43,7 @@ fn idx(x: u16, len: usize) -> usize {
 }
 
 /// Values a lying TLF declares (raw nibble value, number of nibbles).
-pub fn lying_value() -> impl Strategy<Value = (u64, u8)> {
+pub fn lying_value() -> impl Strategy<Value = (u64, u16)> {
     let mag = prop_oneof![
         6 => 0u64..21,
         2 => prop_oneof![Just(255u64), Just(256), Just(257)],
@@ -50,14 +54,16 @@ pub fn lying_value() -> impl Strategy<Value = (u64, u8)> {
         3 => prop_oneof![Just(1u64 << 32), Just((1u64 << 32) + 1), Just((1u64 << 32) + 15), (1u64 << 32)..(1u64 << 48)],
         2 => any::<u32>().prop_map(|x| x as u64),
     ];
-    (mag, 0u8..4).prop_map(|(v, extra)| {
-        let mut n = 1u8;
+    // extra leading zero nibbles: a few, or enough to overflow an 8-bit / 9-bit byte counter
+    let extra = prop_oneof![20 => 0u16..4, 2 => 4u16..40, 1 => 244u16..262, 1 => 500u16..520];
+    (mag, extra).prop_map(|(v, extra)| {
+        let mut n = 1u16;
         let mut x = v >> 4;
         while x > 0 {
             n += 1;
             x >>= 4;
         }
-        (v, (n + extra).min(12))
+        (v, if extra < 4 { (n + extra).min(12) } else { n + extra })
     })
 }
 
@@ -74,6 +80,8 @@ pub fn pmut() -> impl Strategy<Value = PMut> {
         3 => (any::<u16>(), any::<u8>()).prop_map(|(i, v)| PMut::Tag(i, v)),
         8 => (any::<u16>(), lying_value()).prop_map(|(i, (v, n))| PMut::LyingTlf(i, v, n)),
         3 => (any::<u16>(), 1u16..=u16::MAX, 9u8..13).prop_map(|(i, hi, n)| PMut::WrapTlf(i, hi, n)),
+        2 => (any::<u16>(), prop_oneof![Just(0x80u8), Just(0x00u8), Just(0x01u8), Just(0xffu8), Just(0x76u8)], prop_oneof![4 => 1u16..20, 2 => 250u16..262, 1 => 20u16..600]).prop_map(|(p, b, l)| PMut::InsertRun(p, b, l)),
+        1 => (any::<u16>(), 1u8..5).prop_map(|(i, b)| PMut::TruncateAtMsgEnd(i, b)),
         2 => (any::<u16>(), 1u8..=255).prop_map(|(i, v)| PMut::EndMarker(i, v)),
         2 => (any::<u16>(), 1u8..=255).prop_map(|(i, v)| PMut::CrcByte(i, v)),
     ]
@@ -167,6 +175,25 @@ pub fn apply(bytes: &mut Vec<u8>, w: &Written, m: &PMut) -> String {
                 bytes.splice(t.pos..t.pos + t.n, new);
             }
             format!("lying-tlf:{}:{}", t.ctx, magnitude(*v))
+        }
+        PMut::InsertRun(p, b, l) => {
+            let at = idx(*p, n + 1);
+            // prefer a TLF boundary when spans are known, so that 0x80 runs form long type-length fields
+            let at = w.tlfs.iter().map(|t| t.pos).filter(|q| *q <= bytes.len()).min_by_key(|q| (*q as i64 - at as i64).abs()).unwrap_or(at);
+            let run: Vec<u8> = std::iter::repeat(*b).take(*l as usize).collect();
+            bytes.splice(at..at, run);
+            format!("insert-run:{:02x}x{}", b, l)
+        }
+        PMut::TruncateAtMsgEnd(i, back) => {
+            if w.msgs.is_empty() {
+                return "noop".into();
+            }
+            let m = &w.msgs[idx(*i, w.msgs.len())];
+            let cut = m.end.saturating_sub(*back as usize);
+            if cut <= bytes.len() {
+                bytes.truncate(cut);
+            }
+            "truncate-at-msg-end".into()
         }
         PMut::WrapTlf(i, hi, nib) => {
             if w.tlfs.is_empty() {
